@@ -49,10 +49,16 @@ def mkpoint(v):
     """JSON op arguments use lists; ['P', x, y, z] means a Point object."""
     if isinstance(v, list) and v and v[0] == "P":
         return Point(*v[1:])
+    if isinstance(v, list) and len(v) == 2 and v[0] == "np64":
+        import numpy as np
+        return np.float64(v[1])
     if isinstance(v, list):
         return [mkpoint(x) for x in v]
     if isinstance(v, str) and v in ("nan", "inf", "-inf"):
         return float(v)
+    if isinstance(v, list) and len(v) == 2 and v[0] == "np64":
+        import numpy as np
+        return np.float64(v[1])
     return v
 
 
